@@ -642,8 +642,105 @@ class Interp:
             return ('slice_val',) + ptr[1:]
         raise Unproven('load from %r' % (ptr,))
 
+    # ---- pairs (slot, request) that pass through a local array (C13: position / value agreement) -------------
+    def _arr_base(self, st, ptr):
+        """(array tag, index term) when ptr addresses an element of a local array built in place"""
+        if ptr[0] == 'L':
+            base, pr = st.frames.get(ptr[1], {}).get(ptr[2]), ptr[3]
+        elif ptr[0] == 'O':
+            base, pr = st.objs.get(ptr[1]), ptr[2]
+        else:
+            return None
+        if isinstance(base, tuple) and base and base[0] == 'oarr' and isinstance(base[1], tuple) and base[1][:1] == ('rep',) \
+                and len(pr) == 1 and isinstance(pr[0], tuple) and pr[0][0] == 'idx':
+            return base[1], pr[0][1]
+        return None
+
+    def note_array_store(self, st, ptr, v):
+        ab = self._arr_base(st, ptr)
+        if ab is None or not (v[0] == 'adt' and v[1] == OPTION and v[2] == 1):
+            return
+        T, at = ab
+        x = v[3][0]
+        z = st.zone
+        if x[0] == 'tuple' and len(x[1]) == 2 and all(e[0] == 'int' for e in x[1]):
+            a, b = x[1][0][1], x[1][1][1]
+            inv = None
+            for e in reversed(st.events):
+                if e[0] == 'loop':
+                    break
+                if e[0] == 'hit' and len(e) >= 4:
+                    pr = self.strip_borrow(e[3])
+                    if isinstance(pr, tuple) and len(pr) >= 3 and pr[0] == 'elem' and self._teq(z, e[2], a) and self._teq(z, pr[2], b):
+                        inv = ('hit', e[1], pr[1])
+                        break
+            prev = st.arrinv.get(T, 'unset')
+            st.arrinv[T] = inv if prev in ('unset', inv) else None
+            return
+        if x[0] == 'ref' and x[2][0] == 'pair' and tuple(x[2][3]) == (1,):
+            # an answer is written: slot x[2][2] for the request `at`
+            mid, sl = x[2][1], x[2][2]
+            ok = any(m == mid and self._teq(z, a, sl) and self._teq(z, b, at) for a, b, m, kt in st.hitpairs)
+            if not ok:
+                # the single-request path: a direct lookup whose hit is on this very path
+                for e in st.events:
+                    if e[0] == 'hit' and e[1] == mid and self._teq(z, e[2], sl):
+                        pr = self.strip_borrow(e[3])
+                        if isinstance(pr, tuple) and len(pr) >= 3 and pr[0] == 'elem' and self._teq(z, pr[2], at):
+                            ok = True
+            self.oblig('AGREE', ok, 'answer array',
+                       'the value of slot %s is written as the answer to request %s, but it is not established that the '
+                       'key of that slot matched that request (pairs read back from an index list whose every entry '
+                       'was a recorded match: %s)' % (sl, at, [(str(a), str(b)) for a, b, _, _ in st.hitpairs]),
+                       'unproven', props=sorted(getattr(self, 'agree_props', ()) or ['C13']),
+                       sample='answer for request %s = slot %s' % (at, sl))
+
+    @staticmethod
+    def _teq(z, a, b):
+        if isinstance(a, int) and isinstance(b, int):
+            return a == b
+        return a is b or z.entails_eq(a, b)
+
+    def note_loaded(self, st, tag, v):
+        """a value read back from an element of a local array: when every pair stored there was a recorded match
+        (slot, request), so is this one"""
+        if not (isinstance(tag, tuple) and len(tag) >= 2 and tag[0] == 'elem'):
+            return
+        inv = st.arrinv.get(tag[1])
+        if not inv:
+            return
+        ints = []
+
+        def walk(x, d=0):
+            if not isinstance(x, tuple) or not x or d > 5:
+                return
+            if x[0] == 'int' and len(x) == 2 and not isinstance(x[1], int):
+                ints.append(x[1])
+            elif x[0] == 'tuple':
+                for y in x[1]:
+                    walk(y, d + 1)
+            elif x[0] == 'adt':
+                for y in x[3]:
+                    walk(y, d + 1)
+            elif x[0] == 'ref' and x[2][0] == 'O' and x[2][1] in st.objs:
+                walk(st.objs[x[2][1]], d + 1)
+        walk(v)
+        if len(ints) == 2:
+            st.hitpairs = (st.hitpairs + ((ints[0], ints[1], inv[1], inv[2]),))[-4:]
+        elif len(ints) == 1 and len(tag) >= 4 and tag[-1] in (0, 1):
+            # the pair is read field by field (`stack[top].0.0`, then `.0.1`): the two halves belong together
+            pl = st.pendload
+            if pl is not None and pl[0] == tag[1] and pl[1] is tag[2] and pl[2] != tag[-1]:
+                a, b = (pl[3], ints[0]) if pl[2] == 0 else (ints[0], pl[3])
+                st.hitpairs = (st.hitpairs + ((a, b, inv[1], inv[2]),))[-4:]
+                st.pendload = None
+            else:
+                st.pendload = (tag[1], tag[2], tag[-1], ints[0])
+
     def store(self, st, ptr, v):
         """returns list of states"""
+        if getattr(self, 'track_agree', False):
+            self.note_array_store(st, ptr, v)
         k = ptr[0]
         if k == 'L':
             fr = st.frames[ptr[1]]
@@ -1420,6 +1517,8 @@ class Interp:
             ftys = self.adt_field_tys(ty, vi) or []
             fields = tuple(self.mk_unknown(s, ft, val[2] + (vi, i), gs) for i, ft in enumerate(ftys))
             nvval = ('adt', path, vi, fields)
+            if fields and getattr(self, 'track_agree', False):
+                self.note_loaded(s, val[2], nvval)
             s.log('variant', val[2], vi)
             if len(fields) == 1 and fields[0][0] == 'adt' and self.struct_inv_fields(fields[0][1]) is not None:
                 ix = fields[0][3][self.struct_inv_fields(fields[0][1])[0]]
